@@ -250,6 +250,25 @@ def check_lazy(cfg, shard, res, tables):
         g = [2 ** i for i in range(d)]
         sub = sorted({0, 2 ** d - 1} | set(g) | {a ^ b for a in g for b in g} | {a ^ b ^ c for a in g for b in g for c in g})
         pairs = [(i, j) for i in sub for j in sub]
+    # the reported Cayley table of a lazily filled algebra (asked for before anything was multiplied on this object)
+    a3 = make_algebra(cfg)
+    res.evals += 1
+    try:
+        cay = a3.cayley
+        names3 = list(a3.canon2bin)
+        if len(cay) != len(names3) ** 2:
+            res.violate(violation('lazy-cayley:size', f'{name}: the Cayley table has {len(cay)} entries instead of {len(names3) ** 2}', case, len(names3) ** 2, len(cay)))
+        else:
+            for na in names3[::7]:
+                for nb in names3[::5]:
+                    I, J = a3.canon2bin[na], a3.canon2bin[nb]
+                    want, _, _ = expected_sign(ref, a3, na, nb, I, J)
+                    rend = '0' if not want else ('-' if want == -1 else '') + a3.bin2canon[I ^ J]
+                    if cay.get((na, nb)) != rend:
+                        res.violate(violation('lazy-cayley:entry', f'{name}: cayley[{na},{nb}] = {cay.get((na, nb))}', case, rend, cay.get((na, nb))))
+                        break
+    except Exception as e:
+        res.violate(violation('lazy-cayley:raises', f'{name}: cayley raises {type(e).__name__}: {e}', case, 'a table', repr(e)))
     sha = hashlib.sha1()
     vals = {}
     for (i, j) in pairs:
